@@ -13,6 +13,7 @@ import (
 	"strconv"
 	"strings"
 	"time"
+	_ "time/tzdata"
 	"unicode/utf8"
 )
 
@@ -81,10 +82,26 @@ func main() {
 	}
 }
 
+// caseLoc is the time zone the case runs in (field "tz"): the process zone (time.Local) and the zone
+// of the controlled clock. It is a parameter of the environment that no judged result may depend on.
+var caseLoc = time.UTC
+
 func runCase(c M) (res M) {
 	kind, _ := c["kind"].(string)
 	h := handlers[kind]
 	res = M{"case": c, "panic": "", "obs": M{}}
+	caseLoc = time.UTC
+	if tz, _ := c["tz"].(string); tz != "" {
+		loc, err := time.LoadLocation(tz)
+		if err != nil {
+			fmt.Fprintln(os.Stderr, "kdrive: no such time zone:", tz, err)
+			os.Exit(3)
+		}
+		caseLoc = loc
+	}
+	oldLocal := time.Local
+	time.Local = caseLoc
+	defer func() { time.Local = oldLocal }()
 	if h == nil {
 		res["panic"] = "kdrive: unknown case kind " + kind
 		return
